@@ -235,8 +235,54 @@ def gen_case(fmt):
         base = tm.draw_ops(draw, m, ids, n_min=2, n_max=8,
                            kinds=["add", "add", "add_dir"], **kw)
         pair = draw(st.sampled_from(PAIRS[fmt]))
+        # a directory D, something inside it and a sibling whose name is
+        # D + a character that sorts before '/': a filter naming all three
+        # covers the path below D twice if covered paths are pruned by
+        # comparing neighbours of the sorted filter only
+        twin = None
+        if draw(st.integers(0, 9)) < 4:
+            ds = [d for d in tm.dirs(m) if d != ROOT and
+                  tm.depth(m, d) < 3]
+            if ds and draw(st.booleans()):
+                d = draw(st.sampled_from(ds))
+            else:
+                d = ids.next()
+                free = [x for x in tm.NAMES + ["doc"] if x not in
+                        tm.names_in(m, ROOT)]
+                op = ["add", d, ROOT, draw(st.sampled_from(free)),
+                      "directory", None, False]
+                tm.apply_op(m, op)
+                base.append(op)
+            kids = [c for c in tm.children(m, d)]
+            if kids and draw(st.booleans()):
+                kid = draw(st.sampled_from(kids))
+            else:
+                kid = ids.next()
+                free = [x for x in tm.NAMES + ["f"] if x not in
+                        tm.names_in(m, d)]
+                op = ["add", kid, d, draw(st.sampled_from(free)), "file",
+                      "inside\n", False]
+                tm.apply_op(m, op)
+                base.append(op)
+            sib_name = m[d]["name"] + draw(st.sampled_from(
+                [".txt", "-x", " x", "+", "!", ".", "-"]))
+            if sib_name not in tm.names_in(m, m[d]["parent"]):
+                sib = ids.next()
+                op = ["add", sib, m[d]["parent"], sib_name,
+                      draw(st.sampled_from(["file", "file", "directory"])),
+                      None, False]
+                if op[4] == "file":
+                    op[5] = "sibling\n"
+                tm.apply_op(m, op)
+                base.append(op)
+                twin = [d, sib, kid]
         m0 = tm.clone(m)
         ops, shapes = _draw_script(draw, m, ids, bzr, [m0])
+        if twin and twin[2] in m and m[twin[2]]["kind"] == "file" and \
+                draw(st.integers(0, 9)) < 7:
+            op = ["modify", twin[2], m[twin[2]]["content"] + "more\n"]
+            tm.apply_op(m, op)
+            ops.append(op)
         if not _fa_ok([m0], m) or not _script_ok(ops):
             m, ops, shapes = tm.clone(m0), [], []
         m1 = tm.clone(m)
@@ -278,7 +324,13 @@ def gen_case(fmt):
                 o["specific_files"] = draw(st.lists(
                     st.sampled_from(allp), min_size=1, max_size=3,
                     unique=True))
-            if focus and draw(st.integers(0, 9)) < 4:
+            if twin and all(t in m for t in twin) and \
+                    draw(st.integers(0, 9)) < 5:
+                o["specific_files"] = [tm.path_of(m, t) for t in twin]
+                if draw(st.booleans()):
+                    o["specific_files"].append(draw(st.sampled_from(allp)))
+                o["include_unchanged"] = draw(st.booleans())
+            elif focus and draw(st.integers(0, 9)) < 4:
                 # only the entry that went into the new directory
                 o["specific_files"] = [draw(st.sampled_from(focus))]
             opts.append(o)
@@ -433,6 +485,42 @@ def canon(c):
             tuple(c.name), kinds, ex, bool(getattr(c, "copied", False)))
 
 
+def collect(it, name, deferred, **kw):
+    """The canonical records of one comparison as a set - after making sure
+    that it is one: no entry may be reported twice (a result is a set of
+    changes; a filter that covers a path twice must not double them).
+    Listed exception (open finding): an entry that two filter elements reach
+    by different routes (its old and its new path, a renamed or replaced
+    parent directory) is reported twice, identically, by every bzr
+    implementation. Not excused: an entry that keeps its path and lies below
+    a filter element that is itself below another filter element (the
+    redundant element must be pruned), and anything unfiltered.
+    git ids are paths: a kind change in place is a removal plus an addition
+    of the same id."""
+    recs = [canon(c) for c in it.iter_changes(**kw)]
+    impl = name.split(":")[1]
+    if impl == "InterGitTrees":
+        return set(recs)
+    seen = {}
+    for r in recs:
+        key = r[0] if r[0] is not None else ("unversioned", r[1][1])
+        if key in seen:
+            det = {"options": kw, "first": seen[key], "again": r}
+            sf = kw.get("specific_files")
+            inner = [f for f in (sf or []) if any(
+                g != f and (g == "" or f.startswith(g + "/")) for g in sf)]
+            moved = r[3] == (True, True) and r[1][0] != r[1][1]
+            nested = any(selected(r[1][0], [f]) or selected(r[1][1], [f])
+                         for f in inner)
+            check(sf is not None and r == seen[key] and
+                  (moved or not nested),
+                  "C10/entry-reported-twice-" + impl, det)
+            deferred.append(("C10/entry-reached-by-two-filter-routes-"
+                             "reported-twice-" + impl, det))
+        seen[key] = r
+    return set(recs)
+
+
 def is_changed(r):
     return bool(r[2] or r[3][0] != r[3][1] or r[4][0] != r[4][1] or
                 r[5][0] != r[5][1] or r[6][0] != r[6][1] or
@@ -584,12 +672,12 @@ def run(case, env):
     with src.lock_read(), tgt.lock_read():
         impls = _impls(src, tgt)
         deferred = []
+        dups = []
         # ---- (1) unfiltered
         U = {}
         for name, it in impls:
             for iu in (False, True):
-                recs = set(canon(c) for c in it.iter_changes(
-                    include_unchanged=iu))
+                recs = collect(it, name, dups, include_unchanged=iu)
                 U[name, iu] = recs
         n0 = impls[0][0]
         for name, it in impls[1:]:
@@ -647,7 +735,7 @@ def run(case, env):
             res = {}
             for name, it in impls:
                 try:
-                    res[name] = set(canon(c) for c in it.iter_changes(**kw))
+                    res[name] = collect(it, name, dups, **kw)
                 except errors.PathsNotVersionedError:
                     res[name] = "refused"
             vals = list(res.values())
@@ -796,6 +884,8 @@ def run(case, env):
         nt = "swap" if nt is None else nt + "+swap"
     if deferred:
         return violation(deferred[0][0], deferred[0][1], label=nt)
+    if dups:
+        return violation(dups[0][0], dups[0][1], label=nt)
     if extras_differ is not None:
         return violation("C10/filtered-extras-differ", extras_differ,
                          label=nt)
